@@ -40,7 +40,7 @@ def shape_edges(shape, vs):
 
 FAST_MENU = [("clique", 2), ("clique", 2), ("clique", 3), ("clique", 3), ("clique", 4), ("clique", 5), ("cycle", 3), ("cycle", 4),
              ("cycle", 5), ("cycle", 6), ("diamond", 4), ("star", 3), ("star", 4), ("path", 2), ("path", 3), ("path", 4),
-             ("chord", 4), ("chord", 5), ("double", 2), ("double", 2)] + \
+             ("chord", 4), ("chord", 5), ("double", 2), ("double", 2), ("cycle", 2)] + \
     [("multi%d" % e, s) for s in (1, 2, 3, 4, 5) for e in (1, 2, 3, 5) if not (s == 1 and e > 2)]
 
 # custom motifs: (orbit sizes, shape over the concatenated vertices, naming style)
@@ -64,6 +64,16 @@ def as_container(vertices, style):
     return list(vertices)
 
 
+def normalise_result(es):
+    """what a build callback handed back, as a list of pairs + its form: 'list' (a sequence of edges) or 'bare' (one bare pair)"""
+    try:
+        if len(es) == 2 and not isinstance(es[0], (tuple, list)) and not hasattr(es[0], "__len__"):
+            return [(es[0], es[1])], "bare"
+    except TypeError:
+        pass
+    return [tuple(e) for e in es], "list"
+
+
 class Recorder:
     """Owns the build / naming callbacks handed to the generator: the generator's only side channel."""
 
@@ -85,13 +95,16 @@ class Recorder:
             args = tuple(vertices)
             if self.on_build is not None:
                 self.on_build(k)
-            if use_library and shape in lib and not (shape == "cycle" and len(args) < 3):
+            kind = "list"
+            if use_library and shape in lib and not (shape == "cycle" and len(args) < 2):
                 es = sut(f"{shape}_motif{args}", lib[shape], as_container(vertices, lib_arg))
-                es_norm = [tuple(e) for e in es]
+                es_norm, kind = normalise_result(es)
                 self.library_calls += 1
-                # the library's own motif generators are part of the generator path: check them against the definition
+                # the library's own motif generators are part of the generator path: check them against the definition (a "cycle" on
+                # two vertices has no agreed definition - one edge or the same edge twice - so only its form is looked at there)
                 try:
-                    ok = Counter(upair(e) for e in es_norm) == Counter(upair(e) for e in shape_edges(shape, args))
+                    ok = (shape == "cycle" and len(args) == 2 and all(upair(e) == upair(args) for e in es_norm) and 1 <= len(es_norm) <= 2) or \
+                        Counter(upair(e) for e in es_norm) == Counter(upair(e) for e in shape_edges(shape, args))
                 except Exception:
                     ok = False
                 if not ok:
@@ -99,7 +112,7 @@ class Recorder:
             else:
                 es = shape_edges(shape, args)
                 es_norm = list(es)
-            self.calls.append((k, args, es_norm, "list"))
+            self.calls.append((k, args, es_norm, kind))
             if scratch:
                 # a callback that re-uses ONE result container: cleared and refilled at every call (legitimate: the generator is
                 # handed the edges at the moment of the call)
